@@ -1532,11 +1532,19 @@ fn build_path(lhs: &AstNode, rhs: &AstNode) -> Result<Evaluator> {
           }
         }
         Value::DaysAndTimeDuration(dt_duration) => {
+          // the components of a negative duration are negative, like those of years and months durations
+          let signed = |component: usize| -> FeelNumber {
+            if component > 0 && dt_duration < FeelDaysAndTimeDuration::default() {
+              -FeelNumber::from(component)
+            } else {
+              component.into()
+            }
+          };
           return match name.to_string().as_str() {
-            "days" => Value::Number(dt_duration.get_days().into()),
-            "hours" => Value::Number(dt_duration.get_hours().into()),
-            "minutes" => Value::Number(dt_duration.get_minutes().into()),
-            "seconds" => Value::Number(dt_duration.get_seconds().into()),
+            "days" => Value::Number(signed(dt_duration.get_days())),
+            "hours" => Value::Number(signed(dt_duration.get_hours())),
+            "minutes" => Value::Number(signed(dt_duration.get_minutes())),
+            "seconds" => Value::Number(signed(dt_duration.get_seconds())),
             _ => value_null!("no such property in days and time duration"),
           }
         }
